@@ -889,7 +889,8 @@ class Interp:
             return env.get(v[1], U)
         n = lnode.strip()
         if self.heap is not None and n.k in ("MemberExpr", "ArraySubscriptExpr") or (
-                self.heap is not None and n.k == "UnaryOperator" and n.op == "*"):
+                self.heap is not None and n.k == "UnaryOperator" and n.op == "*") or (
+                self.heap is not None and n.k == "DeclRefExpr" and n.get("dk") == "global"):
             rsz = RECORD_SIZES.get(clean_type(n.t or "").replace("struct ", "").replace("const ", "").strip())
             if rsz:
                 p, _s = self.addr(n, env, fn, depth)
